@@ -12,7 +12,7 @@
 # define ENC_FN mpt_encode_cobs
 # define ENC_MAXLEN 255
 #endif
-size_t g_z; unsigned char g_old_byte;
+size_t g_z, g_old_open; unsigned char g_old_byte;
 #define OUT(c) ((const uint8_t *)(c)->iov_base)
 
 ssize_t ENC_FN(MPT_STRUCT(encode_state) *info, const struct iovec *cobs, const struct iovec *base)
@@ -26,11 +26,14 @@ __CPROVER_requires(info->scratch < ENC_MAXLEN && info->done <= cobs->iov_len && 
 __CPROVER_requires(g_z < cobs->iov_len)
 __CPROVER_requires((g_z > info->done && g_z < info->done + info->scratch) ==> OUT(cobs)[g_z] != 0)
 __CPROVER_requires(g_old_byte == OUT(cobs)[g_z])
+__CPROVER_requires(g_old_open == (info->scratch ? info->scratch : 1))
 __CPROVER_assigns(info->_ctx, info->done, info->scratch, __CPROVER_object_whole(cobs->iov_base))
 /* consumed count, state invariant re-established */
 __CPROVER_ensures(__CPROVER_return_value >= 1 ==> (__CPROVER_return_value <= base->iov_len && info->scratch >= 1 && info->scratch < ENC_MAXLEN && info->done >= __CPROVER_old(info->done) && info->done <= cobs->iov_len && info->scratch <= cobs->iov_len - info->done))
 /* the open block's code slot holds its length */
 __CPROVER_ensures(__CPROVER_return_value >= 1 ==> OUT(cobs)[info->done] == info->scratch)
+/* every consumed byte is accounted for in the output (nothing reported consumed but not written) */
+__CPROVER_ensures(__CPROVER_return_value >= 1 ==> ENC_PROGRESS((info->done + info->scratch) - (__CPROVER_old(info->done) + g_old_open), (size_t) __CPROVER_return_value))
 /* no progress only as MissingBuffer, state unchanged: the buffer-full retry is lossless */
 __CPROVER_ensures(__CPROVER_return_value < 1 ==> (__CPROVER_return_value == MPT_ERROR(MissingBuffer) && info->done == __CPROVER_old(info->done) && info->scratch == __CPROVER_old(info->scratch)))
 /* no zero byte anywhere in what was produced (the code slot of the open block is checked above) */
